@@ -276,6 +276,44 @@ func VerifC12_Authenticate() {
 	rt.Assert(!h.invoked, "auth/handler-not-invoked-by-authentication")
 }
 
+// a plain handler function wrapped with the public helper declares exactly the
+// two permissions it was wrapped with, and is held to them
+func VerifC12_WrappedHandler() {
+	r, cs := setupCredentials()
+	read, write := symPerm("h.read"), symPerm("h.write")
+	invoked := false
+	h := WrapInAuthHandler(func(http.ResponseWriter, *http.Request) { invoked = true }, read, write)
+	ah, ok := h.(AuthenticatedHandler)
+	rt.Assert(ok, "wrapped/is-an-authenticated-handler")
+	if !ok {
+		return
+	}
+	rt.Assert(ah.ReadPermission(r) == read, "wrapped/declares-the-read-permission-it-was-given")
+	rt.Assert(ah.WritePermission(r) == write, "wrapped/declares-the-write-permission-it-was-given")
+	readMethod := rt.Bool("readMethod")
+	w := &verifRW{h: http.Header{}}
+	token := authenticateRequest(w, r, h, readMethod)
+	required := write
+	if readMethod {
+		required = read
+	}
+	if token != nil {
+		rt.Assert(required != NotFound && required != NotSupported, "wrapped/notfound-and-notsupported-never-granted")
+		if inRange(required) && required != PermitAnyone && cs.authHeader != "Basic eDp5" {
+			ref, status := cs.reference(required > PermitAnyone)
+			if status == 0 {
+				granted := ref.Write
+				if readMethod {
+					granted = ref.Read
+				}
+				rt.Assert(granted >= required, "wrapped/granted>=required-for-the-method-class")
+			}
+		}
+	}
+	rt.Assert(!invoked, "wrapped/handler-not-invoked-by-authentication")
+	rt.Reach("wrapped-end")
+}
+
 func VerifC12_EffectiveMethod() {
 	var method string
 	switch rt.Choice("m", 8) {
